@@ -4,6 +4,7 @@
    Statements only; proofs are in Proofs/Order.v (which also defines [big], [iter_after], [iter_item]). *)
 From Coq Require Import List NArith Bool.
 From V Require Import Base.Res Model.Kernels Model.Api Spec.Bfun Proofs.Order.
+From V Require Import Proofs.ApiTransforms Proofs.HexOrder.
 Import ListNotations.
 Open Scope N_scope.
 
@@ -110,3 +111,66 @@ Print Assumptions C08_iter_some.
 Print Assumptions C08_iter_none.
 Print Assumptions C08_iter_complete.
 Print Assumptions C08_iter_unique.
+
+
+(* ---- 6. the order matches the lexicographic order of the fixed-width hexadecimal (and binary) strings.
+   Needs, in the header of this file:   From V Require Import Proofs.ApiTransforms Proofs.HexOrder.
+   (Proofs/HexOrder.v depends on Proofs/Text.v: in _CoqProject this file must come after Proofs/HexOrder.v.)
+   [bytes_compare] (Proofs/HexOrder.v) is the lexicographic comparison of byte strings - what Rust's Ord on
+   `str`/`String` does; the printed forms are ASCII, so bytes are characters:
+     Fixpoint bytes_compare (a b : list N) : comparison :=
+       match a, b with
+       | [], [] => Eq | [], _ => Lt | _, [] => Gt
+       | x :: a', y :: b' => match x ?= y with Eq => bytes_compare a' b' | c => c end
+       end.
+   [lwf l] (Proofs/ApiTransforms.v) is [wf (nv l) (tbl l)]. *)
+Theorem C08_bytes_compare_def :
+  bytes_compare [] [] = Eq /\
+  (forall y b, bytes_compare [] (y :: b) = Lt) /\
+  (forall x a, bytes_compare (x :: a) [] = Gt) /\
+  (forall x a y b, bytes_compare (x :: a) (y :: b) = match x ?= y with Eq => bytes_compare a b | c => c end).
+Proof. exact bytes_compare_def. Qed.
+
+Theorem C08_cmp_hex : forall n a b, wf n a -> wf n b ->
+  cmp a b = Ok (bytes_compare (to_hex n a) (to_hex n b)).
+Proof. exact cmp_hex. Qed.
+
+Theorem C08_cmp_bin : forall n a b, wf n a -> wf n b ->
+  cmp a b = Ok (bytes_compare (to_bin n a) (to_bin n b)).
+Proof. exact cmp_bin. Qed.
+
+Theorem C08_cmp_hex_api : forall a b, lwf a -> lwf b -> nv a = nv b ->
+  D_cmp a b = Ok (bytes_compare (D_to_hex_string a) (D_to_hex_string b)).
+Proof. exact cmp_hex_api. Qed.
+
+Theorem C08_cmp_bin_api : forall a b, lwf a -> lwf b -> nv a = nv b ->
+  D_cmp a b = Ok (bytes_compare (D_to_bin_string a) (D_to_bin_string b)).
+Proof. exact cmp_bin_api. Qed.
+
+(* the strings are equal iff the tables are equal: printing is injective on well-formed tables *)
+Theorem C08_to_hex_inj : forall n a b, wf n a -> wf n b -> to_hex n a = to_hex n b -> a = b.
+Proof. exact to_hex_inj. Qed.
+
+Theorem C08_to_bin_inj : forall n a b, wf n a -> wf n b -> to_bin n a = to_bin n b -> a = b.
+Proof. exact to_bin_inj. Qed.
+
+(* non-trivial instances: two-word tables (n = 7); a letter digit against a decimal digit (n = 3: "e8" > "9f") *)
+Example C08_nonvacuous_hexorder :
+  wf 7 [5; 1] /\ wf 7 [0; 2] /\ wf 3 [0xe8] /\ wf 3 [0x9f] /\
+  to_hex 3 [0xe8] = [101; 56] /\ to_hex 3 [0x9f] = [57; 102] /\
+  cmp [0xe8] [0x9f] = Ok Gt /\ bytes_compare (to_hex 3 [0xe8]) (to_hex 3 [0x9f]) = Gt /\
+  bytes_compare (to_bin 3 [0xe8]) (to_bin 3 [0x9f]) = Gt /\
+  cmp [5; 1] [0; 2] = Ok Lt /\ bytes_compare (to_hex 7 [5; 1]) (to_hex 7 [0; 2]) = Lt /\
+  bytes_compare (to_bin 7 [5; 1]) (to_bin 7 [0; 2]) = Lt /\
+  lwf (mkLut 7 [5; 1]) /\ lwf (mkLut 7 [0; 2]) /\
+  D_cmp (mkLut 7 [5; 1]) (mkLut 7 [0; 2]) = Ok Lt /\
+  bytes_compare (D_to_hex_string (mkLut 7 [5; 1])) (D_to_hex_string (mkLut 7 [0; 2])) = Lt.
+Proof. repeat split; try (apply Proofs.Wf.wfb_wf); vm_compute; reflexivity. Qed.
+
+Print Assumptions C08_bytes_compare_def.
+Print Assumptions C08_cmp_hex.
+Print Assumptions C08_cmp_bin.
+Print Assumptions C08_cmp_hex_api.
+Print Assumptions C08_cmp_bin_api.
+Print Assumptions C08_to_hex_inj.
+Print Assumptions C08_to_bin_inj.
